@@ -1,6 +1,6 @@
 """C08 -- timeout bounds the run."""
 
-from . import runrules
+from . import runrules, shutrules
 
 
 def check(ctx, rep):
@@ -14,3 +14,4 @@ def check(ctx, rep):
     runrules.deadline(ctx, rep, "R08.1", "R08.2")
     runrules.exit_discipline(ctx, rep, "R08.3", "R08.3", "R08.3", causes=('expired',))
     runrules.tidy_shape(ctx, rep, "R08.3t")
+    shutrules.cancellation_edges(ctx, rep, "R08.5")
